@@ -286,6 +286,6 @@ def run(prop, tier, seed, out):
                               "matched during trace validation; traces: executions of the real Send accepted by DispatchTrace.tla")
         out.assumptions += ["harness node logs (entry/exit sequence numbers, event pointers) are truthful",
                             "the goroutine dump shows every goroutine created by Send under an eventlogger.(*graph) frame"]
-        if scen_n < 20:
-            raise Broken("too few scenarios ran")
+        if scen_n < 20 and not out.violations:
+            raise Broken("too few scenarios ran")   # the recorder stops early once it has found failures: then the verdict stands
         out.notes = sorted(set(out.notes))[:12]
